@@ -45,19 +45,19 @@ CHECKS.update({
     "C11": ("model_checking", "stateless schedule exploration (preemption-bounded DFS) over a shadow page table + exhaustive operation sequences on real pages observed through /proc/self/smaps",
             "(b) every interleaving up to the bound of readers (one nested; callbacks that panic or return an error), closers and an IsClosed poller on one secret of each implementation with a scheduling point inside every callback: callbacks only run on read-only pages with the original bytes, Close returns only after the last reader, later accesses fail, wipe precedes unlock; (a) every operation sequence (incl. callbacks that panic or fail) up to depth 4/5 on real mmap/mlock/mprotect memory for sizes 1 B..3 pages with smaps permissions and VmFlags (lo, dd) checked inside callbacks and after each step, in child processes so that a SIGSEGV is an observation.", "6/C11"),
     "C12": ("fault_enumeration", "deviation-bounded exhaustive enumeration of failing memory primitives over a shadow page table",
-            "Scripts of New/CreateRandom/WithBytes/nested/WithBytesFunc/Reader/Close/Close for both implementations with every placement of up to 2 (thorough: 3) failing primitives (Alloc, Lock, Protect, Unlock, Free, random source): error instead of a degraded secret, no page of a failed creation left mapped or locked, secret bytes zero at unlock, failed open leaves the page inaccessible and the secret usable, failed Close retryable, in-use counter balanced. Reads between a failed Close and its retry are refused or exact.", "6/C12"),
+            "Scripts of New/CreateRandom/WithBytes/nested/WithBytesFunc/Reader/Close/Close for both implementations with every placement of up to 2 (thorough: 3) failing primitives (Alloc, Lock, Protect, Unlock, Free, random source): error instead of a degraded secret, no page of a failed creation left mapped or locked, secret bytes zero at unlock, failed open leaves the page inaccessible and the secret usable, failed Close retryable, in-use counter balanced. Reads between a failed Close and its retry are refused or exact. Plus schedules: a reader inside its callback and a Close waiting for it, every interleaving x every placement of 1-2 failing primitives (nobody left blocked, Close retryable).", "6/C12"),
     "C13": ("model_checking", "explicit-state breadth-first search (closed state space) over metastore operations against a reference table, through semantic fakes",
-            "BFS over Store/Load/LoadLatest on 2 ids x 2 (thorough: 3) stamps x 4 record variants until no new table is reachable, for the memory, SQL (3 dialects + default) and DynamoDB v1/v2 metastores (table name / region suffix variants); the SQL fake parses and executes the statements under the documented schema, the DynamoDB fake evaluates conditions, key conditions, projection, ordering and is eventually consistent unless ConsistentRead is set; every slot is read back after every transition; DynamoDB variants with transient read errors (a retry must not become a stale read); plus every interleaving of 2-3 concurrent Stores of one key (and a reader) on the in-memory metastore.", "6/C13"),
+            "BFS over Store/Load/LoadLatest on 2 ids x 2 (thorough: 3) stamps x 4 record variants until no new table is reachable, for the memory, SQL (3 dialects + default) and DynamoDB v1/v2 metastores (table name / region suffix variants); the SQL fake parses and executes the statements under the documented schema, the DynamoDB fake evaluates conditions, key conditions, projection, ordering and is eventually consistent unless ConsistentRead is set; every slot is read back after every transition; DynamoDB variants with transient read errors (a retry must not become a stale read); plus every interleaving of 2-3 concurrent Stores of one key (and a reader) on the in-memory metastore. Plus concurrent callers (two readers of different ids, one storer) on one DynamoDB metastore object of each plugin, the transport reading requests when they are delivered.", "6/C13"),
     "C14": ("model_checking", "stateless schedule exploration with context switches placed at external calls (unbounded for 2 processes) + happens-before caching",
-            "2-3 processes with their own factories race one encrypt each (thorough: two) over one spy metastore/KMS from cold, SK-only, expired, revoked-IK and revoked-SK states (plus a clock crossing of the precision bucket): every returned record names stored rows and is decryptable by every process and by the reference, unsaved keys of refused inserts are released, the store only grew; the same 2-process race over the SDK's own instrumented MemoryMetastore with preemptions inside its Store/Load bodies.", "6/C14"),
+            "2-3 processes with their own factories race one encrypt each (thorough: two) over one spy metastore/KMS from cold, SK-only, expired, revoked-IK and revoked-SK states (plus a clock crossing of the precision bucket): every returned record names stored rows and is decryptable by every process and by the reference, unsaved keys of refused inserts are released, the store only grew; the same 2-process race over the SDK's own instrumented MemoryMetastore with preemptions inside its Store/Load bodies. The real-store race also runs over both DynamoDB plugins (eventually consistent fake) and a fresh process must decrypt every record.", "6/C14"),
     "C16": ("model_checking", "stateless schedule exploration of the real code under a controlled scheduler (preemption-bounded DFS + happens-before state caching)",
             "2-3 goroutines get/use/close cached sessions over more partitions than the session cache holds (capacity 1-2, all policies), including expiry while held and factory close racing the holders' closes; the cache's event goroutine and the Remove goroutines are threads of the exploration: held sessions keep working, gets share one session while cached, evicted sessions are torn down exactly once after their last holder, everything is released and no goroutine is left after factory close.", "6/C16"),
     "C17": ("fault_enumeration", "exhaustive product of regional failure patterns over fake regional KMS endpoints on both real plugins",
-            "n = 1..3 (thorough: 4) regions, every preferred region, every subset failing GenerateDataKey and/or Encrypt at wrap time, every {ok, Decrypt fails, wrong data key} assignment at unwrap time, the four v1/v2 pairings and envelopes with an entry removed: success conditions, exactly one entry per succeeded region, identical bytes, preferred-first / at-most-once / stop-at-first-success call order, data-key plaintext wiped; the regional endpoints reject requests naming another region's key; plus every interleaving (preemption bound 2-3) of the fan-out goroutines of EncryptKey with 3-4 regions on both (instrumented) plugins.", "6/C17"),
+            "n = 1..3 (thorough: 4) regions, every preferred region, every subset failing GenerateDataKey and/or Encrypt at wrap time, every {ok, Decrypt fails, wrong data key} assignment at unwrap time, the four v1/v2 pairings and envelopes with an entry removed: success conditions, exactly one entry per succeeded region, identical bytes, preferred-first / at-most-once / stop-at-first-success call order, data-key plaintext wiped; the regional endpoints reject requests naming another region's key; plus every interleaving (preemption bound 2-3) of the fan-out goroutines of EncryptKey with 3-4 regions on both (instrumented) plugins. Every iteration order of the region map (n!) x every preferred region through the public constructors.", "6/C17"),
     "C18": ("exploration", "exhaustive product of input shapes checked in both directions against an independent reference implementation written from the documentation",
             "Payload shapes x partition ids x timestamps x revoked x plain/suffixed hierarchy x static/AWS KMS x storage channel (memory, SQL text, DynamoDB v1/v2 items): the reference decodes the bytes the SDK stored with its own decoders (exact JSON keys, base64, ciphertext||tag||nonce, key-id format) and decrypts; the SDK decrypts rows and records the reference wrote; protobuf mapping through the real sidecar handler; v1<->v2 DynamoDB item exchange.", "6/C18"),
     "C20": ("model_checking", K_TECH + "; repetition probes from every state",
-            "From every state of the history space, every succeeding encrypt/decrypt on a long-lived session is repeated immediately, 61 s, 599 s and 601 s later, and immediately after one other operation on the same partition (e.g. a decrypt of an old-generation record), and the metastore/KMS calls of the repetition are counted; the KMS log of every probe history is checked for two unwraps of one system key by one factory within an interval; with caching disabled every repetition must hit the metastore and leave no live secret; plus schedules in which two goroutines hit a stale system key / shared intermediate key together (one unwrap, one record read).", "6/C20"),
+            "From every state of the history space, every succeeding encrypt/decrypt on a long-lived session is repeated immediately, 61 s, 599 s and 601 s later, and immediately after one other operation on the same partition (e.g. a decrypt of an old-generation record), and the metastore/KMS calls of the repetition are counted; the KMS log of every probe history is checked for two unwraps of one system key by one factory within an interval; with caching disabled every repetition must hit the metastore and leave no live secret; plus schedules in which two goroutines hit a stale system key / shared intermediate key together (one unwrap, one record read). A configuration with different IK / SK cache capacities is probed with alternating partitions (third round free of calls).", "6/C20"),
 })
 
 NOT_YET = {}
